@@ -6,7 +6,10 @@ Shared state  = the fields of `IDGenerator` that are accessed atomically:
             `63 - j` counted from the least significant end, `streamOffset`),
   `inuse`  (`inuseStreams int32`; modelled as an unbounded `Int`: it is bounded by the capacity,
             proved in Proofs/C08),
-  `offset` (`offset uint32`, rotating start word; always `< numBuckets`, so no wrap-around).
+  `offset` (`offset uint32`, rotating start word, as the code has it: a `Nat` below 2^32 whose successor is
+            computed in uint32 arithmetic and then reduced `% numBuckets`, `nextOffset`; from `New` it stays
+            `< numBuckets`, but NOTHING below assumes that: every theorem holds for every value of the word, and
+            the word scan is proved to visit every word exactly once for all 2^32 values, `scanPos32`).
 `NumStreams = 64 * words.length` (2 words for protocol <= 2, 512 words for protocol > 2; everything
 below is generic in the number of words).
 
@@ -54,6 +57,15 @@ def init (n : Nat) : Shared :=
 
 /-- number of words chosen by `New(protocol)` -/
 def wordsOfProto (proto : Nat) : Nat := if proto > 2 then 32768 / 64 else 128 / 64
+
+/-- `(offset+1)%s.numBuckets` with `offset uint32`: the increment wraps at 2^32, then `% numBuckets` -/
+def nextOffset (n o : Nat) : Nat := (o + 1) % 4294967296 % n
+
+/-- the word index computation of `GetStream`, literally, in uint32 arithmetic:
+    `offset = (offset + 1) % s.numBuckets` … `pos := int((i + offset) % s.numBuckets)` for the loaded
+    value `o` of the offset word and the loop counter `i`. Proofs/C08: equal to the `Nat` expression
+    `(i + nextOffset n o) % n` used by `tstep`, for EVERY `o` (all 2^32 values) -/
+def scanPos32 (nb o i : UInt32) : UInt32 := (i + (o + 1) % nb) % nb
 
 /-- is the bit of id `id` set (`isSet`) -/
 def bitAt (ws : List Word) (id : Nat) : Bool := (ws.getD (id / 64) 0).getLsbD (streamOffset id)
@@ -122,7 +134,7 @@ def tstep (sh : Shared) (pc : PC) : Shared × PC × Option Ret :=
   | .idle => (sh, .idle, none)
   | .g1 => (sh, .g2 sh.offset, none)
   | .g2 o =>
-      if sh.offset = o then ({ sh with offset := (o + 1) % n }, .g4 ((o + 1) % n) 0, none)
+      if sh.offset = o then ({ sh with offset := nextOffset n o }, .g4 (nextOffset n o) 0, none)
       else (sh, .g3, none)
   | .g3 => (sh, .g2 sh.offset, none)
   | .g4 off i =>
@@ -330,6 +342,35 @@ def seqMon (cap : Nat) : Shared → Array Bool → Nat → List Op → Bool
     match specStep cap tbl cnt op (seqOp sh op).2 with
     | some st' =>
       decide (available (seqOp sh op).1 = ((cap - 1 - st'.cnt : Nat) : Int)) && seqMon cap (seqOp sh op).1 st'.tbl st'.cnt ops
+    | none => false
+
+/-! ### "any history": sequential histories in which the rotating offset word is set to an arbitrary value
+
+The offset is the only state of the allocator that depends on the NUMBER of past calls; the harness sets the
+word of the real generator through a reflection hook (`O…` tokens) to the values it has after ~2^32, ~2^31 …
+calls. `HOp.setOffset v` is that preset (the value is truncated to the 32 bits of the word). -/
+
+inductive HOp where
+  | op (o : Op)
+  | setOffset (v : Nat)
+deriving Repr, DecidableEq
+
+def presetOffset (sh : Shared) (v : Nat) : Shared := { sh with offset := v % 4294967296 }
+
+/-- the model's answer trace of a sequential history with presets (a preset has no answer) -/
+def hTrace : Shared → List HOp → List (Op × Option Ret × Int)
+  | _, [] => []
+  | sh, .op op :: ops => (op, (seqOp sh op).2, available (seqOp sh op).1) :: hTrace (seqOp sh op).1 ops
+  | sh, .setOffset v :: ops => hTrace (presetOffset sh v) ops
+
+/-- `seqMon` for histories with presets (what the driver runs for `smon` lines) -/
+def seqMonH (cap : Nat) : Shared → Array Bool → Nat → List HOp → Bool
+  | _, _, _, [] => true
+  | sh, tbl, cnt, .setOffset v :: ops => seqMonH cap (presetOffset sh v) tbl cnt ops
+  | sh, tbl, cnt, .op op :: ops =>
+    match specStep cap tbl cnt op (seqOp sh op).2 with
+    | some st' =>
+      decide (available (seqOp sh op).1 = ((cap - 1 - st'.cnt : Nat) : Int)) && seqMonH cap (seqOp sh op).1 st'.tbl st'.cnt ops
     | none => false
 
 end Streams
